@@ -247,3 +247,20 @@ func H_DEV_C14Leak(shape int) {
 	}
 	verifrt.Observe("log", l)
 }
+
+func H_DEV_PermCollision(shape int) {
+	db := openDry(stubDialector{})
+	st := db.Model(&Perm{ID: 5}).Update("createonly", 1).Statement
+	verifrt.Observe("sql", st.SQL.String())
+	st2 := db.Model(&Perm{ID: 5}).Updates(map[string]interface{}{"createonly": 1, "audit_createonly": 2}).Statement
+	verifrt.Observe("sql2", st2.SQL.String())
+	var names []string
+	for _, f := range st.Schema.Fields {
+		names = append(names, f.Name+"/"+f.DBName)
+	}
+	verifrt.Observe("fields", names)
+	f := st.Schema.LookUpField("createonly")
+	verifrt.Observe("lookup", f.DBName+" updatable="+map[bool]string{true: "y", false: "n"}[f.Updatable])
+	f2 := st.Schema.FieldsByName["CreateOnly"]
+	verifrt.Observe("byname", f2.DBName)
+}
